@@ -59,7 +59,7 @@ pub fn result_text(v: &Value) -> Option<String> { v["result"]["content"][0]["tex
 
 pub fn run(ctx: &mut Ctx) {
     let prop = "C20";
-    ctx.ev.rule = "generated sessions of 4–14 JSON-RPC requests over the five tools and the resource methods (valid ledgers, uncovered ledgers, garbage text, wrong argument types, missing fields, unknown tools, bad currencies/months, unknown resource URIs), each run pipelined (all lines written at once, handled concurrently) and one at a time, against the real `cgt-tool mcp` process: every request id gets exactly one response (result or JSON-RPC error), no other ids appear, the server exits 0 when its input closes; the same request gives the same answer at any position, in either mode; calculate_report's JSON equals `cgt-tool report --format json` for the same text (tax years and holdings); every disposal it lists is explained by explain_matching with the legs the CLI reports (rule, exact quantity, acquisition date, cost and gain to the penny; the first session always carries a ledger whose 30-day matches cross 5 April and 31 December, and a ledger with disposals on 5 and 6 April of leap and ordinary years, 29 February and the calendar-year ends). A single-year request asked after the all-years request of the same text must answer as in a fresh session and as the CLI's --year (years with and without disposals). Two sessions of 12–30 failing requests followed by good ones must answer the good ones as a fresh session does. Known-finding classes mcpUndecodable (D15) and overflowMagnitude (D9) are probed once per run and not mixed into the sessions. Non-trivial = sessions with ≥ 1 failing request followed by a succeeding one; distinct by request list.".into();
+    ctx.ev.rule = "generated sessions of 4–14 JSON-RPC requests over the five tools and the resource methods (valid ledgers, uncovered ledgers, garbage text, wrong argument types, missing fields, unknown tools, bad currencies/months, unknown resource URIs), each run pipelined (all lines written at once, handled concurrently) and one at a time, against the real `cgt-tool mcp` process: every request id gets exactly one response (result or JSON-RPC error), no other ids appear, the server exits 0 when its input closes; the same request gives the same answer at any position, in either mode; calculate_report's JSON equals `cgt-tool report --format json` for the same text (tax years and holdings); every disposal it lists is explained by explain_matching with the legs the CLI reports (rule, exact quantity, acquisition date, cost and gain to the penny; the first session always carries a ledger whose 30-day matches cross 5 April and 31 December, and a ledger with disposals on 5 and 6 April of leap and ordinary years, 29 February and the calendar-year ends). convert_to_dsl on the JSON that `cgt-tool parse` prints for mixed-currency ledgers (price, fees, total and tax each in its own currency): its DSL read back by the CLI is that JSON, and the CLI's report of it equals calculate_report's answer for the JSON. A single-year request asked after the all-years request of the same text must answer as in a fresh session and as the CLI's --year (years with and without disposals). Two sessions of 12–30 failing requests followed by good ones must answer the good ones as a fresh session does. Known-finding classes mcpUndecodable (D15) and overflowMagnitude (D9) are probed once per run and not mixed into the sessions. Non-trivial = sessions with ≥ 1 failing request followed by a succeeding one; distinct by request list.".into();
     if !cli::available() { ctx.ev.notes.push("cgt-tool binary not found: nothing checked".into()); ctx.ev.violation("correspondence", "cgt-tool binary missing".into(), "# property C20\n".into()); return; }
     let mut r = Rng::new(ctx.seed ^ 0xC20);
     let mut cfg = GenCfg::standard();
@@ -257,6 +257,47 @@ pub fn run(ctx: &mut Ctx) {
                     ctx.ev.violation("oracle", format!("after {n} failing requests a good request is answered differently than in a fresh session: {} vs {}", a.as_deref().unwrap_or("no answer").lines().next().unwrap_or(""), b.as_deref().unwrap_or("no answer").lines().next().unwrap_or("")), format!("# property C20\n# session ({}): {n} failing requests, then the good ones\n{}\n", if pipelined { "pipelined" } else { "one at a time" }, reqs.iter().map(|v| v.to_string()).collect::<Vec<_>>().join("\n")));
                     break;
                 }
+            }
+        }
+    }
+    // convert_to_dsl against the CLI: a JSON ledger (what `cgt-tool parse` prints) converted by the MCP tool
+    // must be the DSL of that very ledger — read back by `cgt-tool parse` it is the same JSON, and the CLI's
+    // report of it is calculate_report's answer for the JSON. Prices, fees, totals and tax each in its own
+    // currency (the bundled rates cover them).
+    {
+        let mut rc = Rng::new(ctx.seed ^ 0xC2_0D51);
+        for k in 0..ctx.n(6, 60) {
+            let y = 2017 + rc.below(7) as i32;
+            let cur = |r: &mut Rng| *r.pick(&["GBP", "USD", "EUR", "GBP", "CHF"]);
+            let (c1, c2, c3, c4, c5, c6) = (cur(&mut rc), cur(&mut rc), cur(&mut rc), cur(&mut rc), cur(&mut rc), cur(&mut rc));
+            let text = format!("{y}-01-10 BUY ACME {} @ {} {c1} FEES {} {c2}\n{y}-03-01 DIVIDEND ACME TOTAL {} {c5} TAX {} {c6}\n{y}-06-01 SELL ACME {} @ {} {c3} FEES {} {c4}\n",
+                100 + rc.below(50), Decimal::new(rc.range(100, 5000), 2), Decimal::new(rc.range(1, 3000), 2), Decimal::new(rc.range(100, 9000), 2), Decimal::new(rc.range(1, 500), 2), 1 + rc.below(90), Decimal::new(rc.range(100, 5000), 2), Decimal::new(rc.range(1, 3000), 2));
+            let sc = cli::Scratch::new();
+            sc.write("in.cgt", &text);
+            let parsed = cli::run(&sc, &["parse", "in.cgt"]);
+            if parsed.code != Some(0) { continue; }
+            let jtext = String::from_utf8_lossy(&parsed.stdout).to_string();
+            ctx.ev.evaluations += 1;
+            ctx.ev.count("convert_to_dsl-round-trips");
+            let s = session(&[call(1, "convert_to_dsl", json!({"transactions": jtext})), call(2, "calculate_report", json!({"transactions": jtext}))], k % 2 == 0);
+            let case = format!("# property C20\n# oracle: MCP convert_to_dsl / calculate_report on the JSON that `cgt-tool parse` prints for this ledger, against the CLI\n{text}");
+            let Some(dsl) = s.responses.iter().find(|v| v["id"].as_u64() == Some(1)).and_then(result_text) else { ctx.ev.violation("oracle", "convert_to_dsl gives no result for a JSON ledger the CLI printed".into(), case); continue };
+            sc.write("back.cgt", &dsl);
+            let back = cli::run(&sc, &["parse", "back.cgt"]);
+            let (ja, jb): (Value, Value) = (serde_json::from_slice(&parsed.stdout).unwrap_or_default(), serde_json::from_slice(&back.stdout).unwrap_or_default());
+            if back.code != Some(0) || ja != jb {
+                ctx.ev.violation("oracle", "convert_to_dsl's DSL, read by `cgt-tool parse`, is not the ledger it was given".into(), format!("{case}# convert_to_dsl answered:\n{}", dsl.lines().map(|l| format!("#   {l}\n")).collect::<String>()));
+                continue;
+            }
+            let cli_rep = cli::run(&sc, &["report", "back.cgt", "--format", "json"]);
+            let mcp_rep = s.responses.iter().find(|v| v["id"].as_u64() == Some(2)).and_then(result_text);
+            match (cli_rep.code == Some(0), mcp_rep) {
+                (true, Some(m)) => {
+                    let (a, b): (Value, Value) = (serde_json::from_slice(&cli_rep.stdout).unwrap_or_default(), serde_json::from_str(&m).unwrap_or_default());
+                    if a["tax_years"] != b["tax_years"] || a["holdings"] != b["holdings"] { ctx.ev.violation("oracle", "calculate_report on a JSON ledger differs from the CLI's report of convert_to_dsl's DSL for it".into(), case); }
+                }
+                (false, Some(m)) if !m.starts_with("error") && serde_json::from_str::<Value>(&m).map(|v| v.get("tax_years").is_some()).unwrap_or(false) => ctx.ev.violation("oracle", "the CLI refuses the converted ledger that calculate_report reports on".into(), case),
+                _ => {}
             }
         }
     }
